@@ -1,8 +1,8 @@
 (* C21 — names and definitions follow the assertion-stack scopes.  Theorems only; the models are
    Names/ScopedVec.v, Names/TermNames.v, Names/DefinedFuns.v, the proofs Names/TermNamesProofs.v.
-   [run fx ops]: the TermNames object driven by the client operations tryInsert / pushScope /
+   [run fx fs ops]: the TermNames object driven by the client operations tryInsert / pushScope /
    popScope / change of :global-declarations; fx = false is the code as it is, fx = true the variant
-   with the repaired eraseTermName.  [spec_run ops]: a stack of scopes of (name, term) pairs. *)
+   with the repaired eraseTermName; fs = true the variant whose popScope is guarded against a missing scope.  [spec_run fs ops]: a stack of scopes of (name, term) pairs. *)
 From Coq Require Import List NArith Bool.
 From OsmtV.Names Require Import ScopedVec TermNames TermNamesProofs DefinedFuns.
 Import ListNotations.
@@ -10,28 +10,28 @@ Local Open Scope N_scope.
 
 (* The class is the stack of scopes: for every operation sequence (and both variants) the state
    abstracts to exactly what the specification computes; both are undefined on the same sequences. *)
-Theorem names_refine : forall fx ops, option_map abs (run fx ops) = spec_run ops.
-Proof. exact names_refine_lemma. Qed.
+Theorem names_refine : forall fx fs ops, option_map abs (run fx fs ops) = spec_run fs ops.
+Proof. intros fx fs; exact (names_refine_lemma fs fx). Qed.
 Print Assumptions names_refine.
 
 (* ... and every name-keyed observation (termByName, contains(name), iteration order) is the
    specification's. *)
-Theorem names_observations_refine : forall fx ops s, run fx ops = Some s ->
+Theorem names_observations_refine : forall fx fs ops s, run fx fs ops = Some s ->
   (forall n, term_by_name (fst s) n = spec_lookup (abs s) n) /\
   (forall n, contains_name (fst s) n = spec_has (abs s) n) /\
   iteration (fst s) = spec_all (abs s).
-Proof. exact names_obs_lemma. Qed.
+Proof. intros fx fs; exact (names_obs_lemma fs fx). Qed.
 Print Assumptions names_observations_refine.
 
 (* The claim "contains(t) holds exactly when some live name denotes t" is FALSE for the code as it
    is: three operations leave a term that contains() reports although no name is left, and
    nameForTerm on it is front() of an empty vector (undefined behaviour). *)
 Theorem contains_term_refuted : exists ops s t,
-  length ops = 3%nat /\ run false ops = Some s /\
+  length ops = 3%nat /\ (forall fs, run false fs ops = Some s) /\
   contains_term (fst s) t = true /\ ~ named_by (abs s) t /\ name_for_term (fst s) t = PickUB.
 Proof.
   exists [PushScope; Insert 1 7; PopScope]. eexists. exists 7.
-  split; [reflexivity|]. split; [vm_compute; reflexivity|].
+  split; [reflexivity|]. split; [intros []; vm_compute; reflexivity|].
   split; [vm_compute; reflexivity|]. split; [|vm_compute; reflexivity].
   intros (n & Hn). vm_compute in Hn. discriminate.
 Qed.
@@ -39,7 +39,7 @@ Print Assumptions contains_term_refuted.
 
 (* With eraseTermName repaired (the entry is dropped with its last name) the claim holds for every
    operation sequence, nameForTerm is never undefined and only returns live names of that term. *)
-Theorem contains_term_repaired : forall ops s t, run true ops = Some s ->
+Theorem contains_term_repaired : forall fs ops s t, run true fs ops = Some s ->
   (contains_term (fst s) t = true <-> named_by (abs s) t) /\
   name_for_term (fst s) t <> PickUB /\
   (forall n, name_for_term (fst s) t = PickName n -> spec_lookup (abs s) n = Some t).
@@ -47,57 +47,57 @@ Proof. exact contains_term_repaired_lemma. Qed.
 Print Assumptions contains_term_repaired.
 
 (* In both variants: a live name is always found, and a name that is actually picked is live. *)
-Theorem named_terms_sound : forall fx ops s t, run fx ops = Some s ->
+Theorem named_terms_sound : forall fx fs ops s t, run fx fs ops = Some s ->
   (named_by (abs s) t -> contains_term (fst s) t = true) /\
   (forall n, name_for_term (fst s) t = PickName n -> spec_lookup (abs s) n = Some t).
 Proof.
-  intros fx ops s t E. split; [apply (contains_term_complete fx ops); exact E|].
-  intros n; apply (picked_name_live fx ops); exact E.
+  intros fx fs ops s t E. split; [apply (contains_term_complete fs fx ops); exact E|].
+  intros n; apply (picked_name_live fs fx ops); exact E.
 Qed.
 Print Assumptions named_terms_sound.
 
 (* Names belong to the level where they were introduced: after (push) <balanced history> (pop)
    every name-keyed observation is what it was before the push ... *)
-Theorem pop_restores_names : forall fx pre mid s0,
-  run fx pre = Some s0 -> snd s0 = false -> balanced mid ->
-  exists s, run fx (pre ++ PushScope :: mid ++ [PopScope]) = Some s /\ abs s = abs s0 /\
+Theorem pop_restores_names : forall fx fs pre mid s0,
+  run fx fs pre = Some s0 -> snd s0 = false -> balanced mid ->
+  exists s, run fx fs (pre ++ PushScope :: mid ++ [PopScope]) = Some s /\ abs s = abs s0 /\
     (forall n, term_by_name (fst s) n = term_by_name (fst s0) n) /\
     (forall n, contains_name (fst s) n = contains_name (fst s0) n) /\
     iteration (fst s) = iteration (fst s0).
-Proof. exact pop_restores_names_lemma. Qed.
+Proof. intros fx fs; exact (pop_restores_names_lemma fs fx). Qed.
 Print Assumptions pop_restores_names.
 
 (* ... so a name introduced inside the popped level cannot be referenced and can be introduced
    again, for any term. *)
-Theorem popped_name_reusable : forall fx pre mid s0 n t',
-  run fx pre = Some s0 -> snd s0 = false -> balanced mid ->
+Theorem popped_name_reusable : forall fx fs pre mid s0 n t',
+  run fx fs pre = Some s0 -> snd s0 = false -> balanced mid ->
   contains_name (fst s0) n = false ->
-  exists s, run fx (pre ++ PushScope :: mid ++ [PopScope]) = Some s /\
+  exists s, run fx fs (pre ++ PushScope :: mid ++ [PopScope]) = Some s /\
             term_by_name (fst s) n = None /\
             snd (try_insert n t' (fst s)) = true /\
             term_by_name (fst (try_insert n t' (fst s))) n = Some t'.
-Proof. exact popped_name_reusable_lemma. Qed.
+Proof. intros fx fs; exact (popped_name_reusable_lemma fs fx). Qed.
 Print Assumptions popped_name_reusable.
 
 (* tryInsert accepts a name exactly when no live scope holds it. *)
-Theorem insert_accepts_iff_not_live : forall fx ops s n t, run fx ops = Some s ->
+Theorem insert_accepts_iff_not_live : forall fx fs ops s n t, run fx fs ops = Some s ->
   snd (try_insert n t (fst s)) = negb (spec_has (abs s) n).
-Proof. exact insert_iff_not_live. Qed.
+Proof. intros fx fs; exact (insert_iff_not_live fs fx). Qed.
 Print Assumptions insert_accepts_iff_not_live.
 
 (* With :global-declarations on (and left alone) nothing is undefined and every name persists,
    with its term, across any pushes and pops. *)
-Theorem global_persists : forall fx ops x,
+Theorem global_persists : forall fx fs ops x,
   no_set_global ops = true ->
-  exists x', run_from fx (x, true) ops = Some (x', true) /\
+  exists x', run_from fx fs (x, true) ops = Some (x', true) /\
     forall n t, term_by_name x n = Some t -> term_by_name x' n = Some t.
-Proof. exact global_persists_lemma. Qed.
+Proof. intros fx fs; exact (global_persists_lemma fs fx). Qed.
 Print Assumptions global_persists.
 
-Theorem global_insert_persists : forall fx ops x n t,
+Theorem global_insert_persists : forall fx fs ops x n t,
   no_set_global ops = true -> term_by_name x n = None ->
-  exists x', run_from fx (x, true) (Insert n t :: ops) = Some (x', true) /\ term_by_name x' n = Some t.
-Proof. exact global_insert_persists_lemma. Qed.
+  exists x', run_from fx fs (x, true) (Insert n t :: ops) = Some (x', true) /\ term_by_name x' n = Some t.
+Proof. intros fx fs; exact (global_insert_persists_lemma fs fx). Qed.
 Print Assumptions global_insert_persists.
 
 (* define-fun: the DefinedFunctions table answers like "global set + stack of scopes" after every
@@ -112,24 +112,30 @@ Proof. exact define_fun_scoped_lemma. Qed.
 Print Assumptions define_fun_scoped.
 
 (* Undefined behaviour.  If the switch is not changed, matched pushes/pops never reach it ... *)
-Theorem matched_history_defined : forall fx ops,
-  no_set_global ops = true -> pops_matched_from 0 ops = true -> run fx ops <> None.
-Proof. exact matched_defined_lemma. Qed.
+Theorem matched_history_defined : forall fx fs ops,
+  no_set_global ops = true -> pops_matched_from 0 ops = true -> run fx fs ops <> None.
+Proof. intros fx fs; exact (matched_defined_lemma fs fx). Qed.
 Print Assumptions matched_history_defined.
 
 (* ... but "matched pushes/pops are always defined" is FALSE once :global-declarations is switched
    between a push and its pop: popScope then runs limits.back() on an empty vector. *)
 Theorem toggled_global_pop_refuted : exists ops,
-  pops_matched_from 0 ops = true /\ run false ops = None /\ run true ops = None.
+  pops_matched_from 0 ops = true /\ run false false ops = None /\ run true false ops = None.
 Proof.
   exists [SetGlobal true; PushScope; SetGlobal false; PopScope].
   repeat split; vm_compute; reflexivity.
 Qed.
 Print Assumptions toggled_global_pop_refuted.
 
+(* With the guarded popScope (nothing to do when no scope is open) no operation sequence at all is
+   undefined, and everything above still holds (all theorems are stated for both values of fs). *)
+Theorem guarded_pop_total : forall fx ops, run fx true ops <> None.
+Proof. exact run_guarded_total. Qed.
+Print Assumptions guarded_pop_total.
+
 (* non-vacuity *)
 Example refine_nonvacuous :
-  exists s, run false [Insert 1 10; PushScope; Insert 2 10; Insert 1 11; PushScope; Insert 3 12; PopScope] = Some s /\
+  exists s, run false false [Insert 1 10; PushScope; Insert 2 10; Insert 1 11; PushScope; Insert 3 12; PopScope] = Some s /\
     iteration (fst s) = [(1, 10); (2, 10)] /\ names_for_term (fst s) 10 = Some [1; 2] /\
     names_for_term (fst s) 12 = Some [] /\ abs s = mk_spec [(2, 10)] [[(1, 10)]] false.
 Proof. eexists. split; [vm_compute; reflexivity|]. repeat split; vm_compute; reflexivity. Qed.
